@@ -907,6 +907,13 @@ func (r *wsRun) opUnsub(a int) {
 	if s == nil || s.handle == nil {
 		return
 	}
+	if r.held != nil && r.held.s == s {
+		// what happens when an Unsubscribe overtakes a notification that the receive loop is still
+		// handing to the subscriber is deliberately not asserted: let the subscriber take it first
+		if !r.consumeHeld() {
+			return
+		}
+	}
 	s.unsubDone = make(chan *rpcbackend.RPCError, 1)
 	ctx, cancel := context.WithCancel(context.Background())
 	prevCancel := s.cancel
@@ -920,13 +927,6 @@ func (r *wsRun) opUnsub(a int) {
 		s.unsubDone <- s.handle.Unsubscribe(ctx)
 	}()
 	wasActive := s.state == stActive
-	if r.held != nil && r.held.s == s {
-		// what happens when an Unsubscribe overtakes a notification that the receive loop is still
-		// handing to the subscriber is deliberately not asserted: let the subscriber take it first
-		if !r.consumeHeld() {
-			return
-		}
-	}
 	if r.isDown && wasActive {
 		if r.waitBlocked(r.limboCount()+1, "Unsubscribe of "+s.token) {
 			delete(r.owner, s.serverID)
